@@ -35,6 +35,7 @@ func genC20(c *Ctx) {
 	c20GenTestPoly(c)
 	c20GenBlindRot(c)
 	c20GenHistory(c)
+	c20GenEncHistory(c)
 	c20GenMalformed(c)
 }
 
@@ -538,6 +539,7 @@ func c20Homomorphisms(c *Ctx, ps *c20PS, sk *rlwe.SecretKey, sInts []int64, rgA 
 		gSum[i] = gA[i] + gB[i]
 	}
 	c20HomProbe(c, ps, sk, sInts, sum, gSum, lq, lp, w, 2, "rgsw_add", par)
+	c20OutOfPlace(c, ps, sk, sInts, rgA, gA, rgB, gB, lq, lp, w, par)
 
 	// ---- multiply by X^alpha - 1 ----
 	alpha := 1 + c.rng.Intn(2*n-1)
